@@ -401,13 +401,6 @@ class OutgoingMessageHandler:
         decoded_message: str,
     ) -> None:
         """Process outgoing internal messages."""
-        if message_buffer:
-            message_buffer.internal_messages[
-                (message.node_id, message.child_id, message.message_type)
-            ] = message
-
-            return
-
         await gateway.transport.write(decoded_message)
 
 
